@@ -40,6 +40,7 @@ type shape struct {
 	soaMin uint32
 	ecs    bool
 	ad     bool
+	ede    bool
 }
 
 var shapes = map[string]shape{
@@ -65,6 +66,10 @@ var shapes = map[string]shape{
 	"e300.test.":     {kind: "ok", ttls: []uint32{300}, ecs: true, ad: true},
 	"enx.test.":      {kind: "nx", soaTTL: 30, soaMin: 30, ecs: true},
 	"other300.test.": {kind: "ok", ttls: []uint32{300}},
+	// Answers whose OPT record carries an extended DNS error next to the
+	// client-subnet option (a resolver serving stale data says so).
+	"ede5.test.":   {kind: "ok", ttls: []uint32{5}, ecs: true, ede: true},
+	"ede300.test.": {kind: "ok", ttls: []uint32{300}, ede: true},
 }
 
 var nameList = func() (ns []string) {
@@ -228,6 +233,10 @@ func answer(req *dns.Msg) (resp *dns.Msg) {
 
 	if opt := req.IsEdns0(); opt != nil {
 		resp.SetEdns0(opt.UDPSize(), do)
+		if sh.ede {
+			ropt := resp.IsEdns0()
+			ropt.Option = append(ropt.Option, &dns.EDNS0_EDE{InfoCode: dns.ExtendedErrorCodeStaleAnswer, ExtraText: "stale"})
+		}
 		if hasECS {
 			scope := uint8(0)
 			if sh.ecs {
